@@ -72,6 +72,21 @@ CHECKS = {
   "call results. Held on the segmentations run.",
   "requests of the measured stream are mutually independent; trusts the wire codec and the scripted implementation/peer",
   "DESIGN.md §5 C13"),
+ "C09": ("clntlab", "exploration",
+  "runtime monitor at the client boundary against a scripted peer whose answers are a pure function of each request (unique payloads identify the reply a caller received); tag-set and conservation monitors",
+  "1..5 concurrent calls answered in every permutation; 1/8/64 caller goroutines with the peer answering in random batches, random order, arbitrary reply segmentation and random delays at the "
+  "client's schedule points; more than 65 535 (thorough: 4 x 1 000 000) consecutive calls with bursts that force tags back to the pool; Rerror and wrong-type replies; the pipelined Tag interface. "
+  "Each call's result must be the answer to its own request, the peer must never see a tag that is still outstanding, and at quiescence free tags + cached slots == 65 535. Held on the runs made.",
+  "trusts the scripted peer and the wire codec; interleavings reachable through the client's hook points and scheduler noise",
+  "DESIGN.md §5 C09"),
+ "C10": ("clntlab", "fault_enumeration",
+  "fault injection at every byte offset of a scripted reply stream, with caller/receiver goroutines parked at client hook points; hang oracle = stable pair of goroutine dumps",
+  "Connect, Attach and k = 0..4 concurrent calls whose replies come in one burst; the stream is cut after every offset by close and reset, and at every frame boundary by an undersize / oversize / "
+  "undefined-type / unknown-tag frame followed by silence; additionally a client-side write fault at every offset, Unmount racing with calls, the Tag interface across a failure, and all of it with a "
+  "caller or the receive loop parked at each client schedule point while the failure is delivered. A call must succeed iff its complete reply was read by the client before the failure, all others "
+  "and all later calls must fail, and every call must return (a caller parked in Rpc in two dumps is a hang). Held on the enumerated fault points.",
+  "'delivered' = read from the transport by the client before the fault; hang decided by two dumps 0.7 s apart after 3 s and again after 15 s",
+  "DESIGN.md §5 C10"),
  "C04": ("srvlab", "exploration",
   "online reference-model monitor: every request/reply of sequential histories judged against an executable fid-table model, plus invocation/FidDestroy log of a scripted implementation",
   "The real server framework runs in-process with a scripted implementation over scripted in-memory connections; each step of (a) all (fid state x request x outcome) transitions on fresh "
@@ -110,6 +125,8 @@ def main():
         "engines": [
             {"name": "codec", "path": "harness/lab/codec", "serves_properties": ["C01", "C02"],
              "kind_free_text": "in-process differential monitor of go9p's codec against the independent codec harness/wire"},
+            {"name": "clntlab", "path": "harness/lab/clntlab", "serves_properties": ["C09", "C10", "C12", "C13"],
+             "kind_free_text": "go9p client library against the scripted raw peer (harness/peer) over scripted connections; client hook points through harness/sched"},
             {"name": "srvlab", "path": "harness/lab/srvlab", "serves_properties": ["C03", "C04", "C05", "C07", "C08", "C11", "C12", "C13"],
              "kind_free_text": "real server framework + scripted implementation (harness/script) over scripted connections (harness/memconn), schedule-point controller (harness/sched), reference models (harness/model)"},
         ],
